@@ -28,6 +28,8 @@ def _mk(w):
     import numpy as np
     from nitypes.waveform import DigitalWaveform
     arr = np.array(w["buf"], dtype=w["dtype"]).reshape(len(w["buf"]), w["ncol"])
+    if w.get("fortran"):
+        arr = np.asfortranarray(arr)      # the same samples in column-major memory: the order of the report is by sample all the same
     return DigitalWaveform(data=arr, start_index=w["st"], sample_count=w["cnt"])
 
 
@@ -162,6 +164,8 @@ def gen_cases(rng, tier):
             e = _copy.deepcopy(a)
             if rng.random() < 0.5 and e["buf"] and e["ncol"]:
                 e["buf"][rng.randrange(len(e["buf"]))][rng.randrange(e["ncol"])] = rng.choice(states)
+        if rng.random() < 0.25:
+            a["fortran"] = e["fortran"] = True
         c = {"k": "test", "a": a, "e": e}
         if twin and rng.random() < 0.5:
             c["e"] = _copy.deepcopy(a)
